@@ -145,6 +145,24 @@ func genC04Levels() (string, string) {
 	})
 	s += strings.Join(rows, ",\n") + "\n]\n\n"
 
+	// 2b. every token that starts a primary expression (all case clauses of primary())
+	var heads []string
+	ast.Inspect(prim.Body, func(x ast.Node) bool {
+		cc, ok := x.(*ast.CaseClause)
+		if !ok {
+			return true
+		}
+		for _, e := range cc.List {
+			if se, ok := e.(*ast.SelectorExpr); ok {
+				if id, ok := se.X.(*ast.Ident); ok && id.Name == "lexer" {
+					heads = append(heads, se.Sel.Name)
+				}
+			}
+		}
+		return false
+	})
+	s += "/-- the tokens of all case clauses of primary(), in source order -/\ndef primaryCaseHeads : List String := " + leanStrList(heads) + "\n\n"
+
 	// 3. the print statement: stop set of exprList is in `levels`; the redirect tokens of simpleStmt
 	ss := findFunc(pf, "parser", "simpleStmt")
 	var redirect []string
